@@ -1,6 +1,7 @@
 import QcelVerif.Model.Serialize
 import QcelVerif.Model.JsonText
 import QcelVerif.Model.JsonFloat
+import QcelVerif.Model.SerializeSrc
 import QcelVerif.Lib.Proto
 /-!
 Line-protocol driver for the C10 model.
@@ -22,8 +23,16 @@ ops:
                             tree — `err float-hyp` if the hypothesis of the text theorems fails for one of them)
   jtd hook|plain <hex of the UTF-8 text>   the model's JSON parser on a text (+ object hook for `hook`) -> tree | err <kind>
   mpf <tree>          hex of the plain-msgpack payload bytes (ndarray leaves as flat element lists) | err <kind>
+  disp <hex of the encoding string or ->   ser=<callee|KeyError> de-str=<callee|KeyError|Assertion> de-bytes=<…>
+
+THREE-WAY: the ops mp, mpd, jx, jxd, jt, jtd hook, mpf and disp answer `<hand model> || <source-derived>` where the right
+side is computed by the evaluator of Model/SerializeSrc.lean on Gen/SerializeSrc.lean (the translation of
+util/serialization.py regenerated on every run: dispatch -> wrapper -> keyword arguments -> hook body -> walker) and is
+abbreviated to `=` when it is the same string as the left side.  The harness compares the left side with the
+implementation and demands `=` on the right.
 -/
 open QcelVerif QcelVerif.Ser QcelVerif.Proto
+open QcelVerif.Ser.Src (Exc)
 
 def hexStr (b : Bytes) : String := if b.isEmpty then "-" else String.ofList (hex b)
 
@@ -147,12 +156,59 @@ def jsonTextOf (enc : String) (v : Val) : String :=
     | none => "err not-json"
     | some j => if twf codec j then "T " ++ String.ofList (printV codec j) else "err float-hyp"
 
+
+def showExc : Exc → String
+  | .hook e => showHookErr e
+  | .flatDtype => "err unsupported-dtype"
+  | .typeError => "err TypeError"
+  | .raised x => "err raised:" ++ x
+  | .assertion => "err Assertion"
+  | .unsupported => "err src-unsupported"
+
+def three (hand src : String) : String := hand ++ " || " ++ (if src == hand then "=" else src)
+
+/-- source-derived counterpart of `jsonTextOf` -/
+def jsonTextOfSrc (enc : String) (v : Val) : String :=
+  match Src.encodeSrc (asciiBytes enc) v with
+  | .error e => showExc e
+  | .ok (.jsonDumps, w) =>
+    (match toJ w with
+     | none => "err not-json"
+     | some j => if twf codec j then "T " ++ String.ofList (printV codec j) else "err float-hyp")
+  | .ok _ => "err src-wrong-writer"
+
+def bytesOfSrcStr (enc : String) (v : Val) : String :=
+  match Src.bytesOfSrc (asciiBytes enc) v with
+  | .ok b => hexStr b
+  | .error e => showExc e
+
+def lowerStr (s : String) : String := String.ofList (s.toList.map fun c => if 'A' ≤ c ∧ c ≤ 'Z' then Char.ofNat (c.toNat + 32) else c)
+
+def dispHand (s : String) : String :=
+  match parseEnc? (lowerStr s) with
+  | none => "ser=KeyError de-str=KeyError de-bytes=KeyError"
+  | some .json => "ser=json_dumps de-str=json_loads de-bytes=Assertion"
+  | some .jsonExt => "ser=jsonext_dumps de-str=jsonext_loads de-bytes=jsonext_loads"
+  | some .msgpack => "ser=msgpack_dumps de-str=Assertion de-bytes=msgpack_loads"
+  | some .msgpackExt => "ser=msgpackext_dumps de-str=Assertion de-bytes=msgpackext_loads"
+
+def dispSrc (enc : Bytes) : String :=
+  let sh (r : Except Exc (String × List Val × List (String × Ser.Ast.Expr))) : String :=
+    match r with
+    | .ok (fn, _, _) => fn
+    | .error (.raised x) => x
+    | .error .assertion => "Assertion"
+    | .error e => showExc e
+  "ser=" ++ sh (Src.runTail Ser.Gen.Src.serialize [.nil, .str enc])
+    ++ " de-str=" ++ sh (Src.runTail Ser.Gen.Src.deserialize [.str [], .str enc])
+    ++ " de-bytes=" ++ sh (Src.runTail Ser.Gen.Src.deserialize [.bin [], .str enc])
+
 def stepC10 (line : String) : String :=
   match splitSpaces line with
   | "jt" :: enc :: toks =>
     if enc == "json" || enc == "json-ext" then
       match parseTree? toks with
-      | some v => jsonTextOf enc v
+      | some v => three (jsonTextOf enc v) (jsonTextOfSrc enc v)
       | none => "bad-op"
     else "bad-op"
   | ["jtd", mode, hx] =>
@@ -167,38 +223,58 @@ def stepC10 (line : String) : String :=
         | .ok j =>
           if mode == "plain" then showTree (ofJ j)
           else if mode == "hook" then
-            match jxDec (ofJ j) with
-            | .ok v => showTree v
-            | .error e => showHookErr e
+            three (match jxDec (ofJ j) with
+                   | .ok v => showTree v
+                   | .error e => showHookErr e)
+                  (match Src.decW Src.jxHookSrc (ofJ j) with
+                   | .ok v => showTree v
+                   | .error e => showExc e)
           else "bad-op"
   | "mpf" :: toks =>
     match parseTree? toks with
     | some v =>
-      match flatEnc v with
-      | some w => hexStr (mpEnc w)
-      | none => "err unsupported-dtype"
+      three (match flatEnc v with
+             | some w => hexStr (mpEnc w)
+             | none => "err unsupported-dtype") (bytesOfSrcStr "msgpack" v)
     | none => "bad-op"
   | "mp" :: toks =>
     match parseTree? toks with
-    | some v => hexStr (mpEnc v)
+    | some v => three (hexStr (mpEnc v)) (bytesOfSrcStr "msgpack-ext" v)
     | none => "bad-op"
   | ["mpd", hx] =>
     match unhexStr? hx with
     | some bs =>
-      match mpDecode bs with
-      | .ok v => showTree v
-      | .error e => showDecErr e
+      three (match mpDecode bs with
+             | .ok v => showTree v
+             | .error e => showDecErr e)
+            (match Src.mpDecodeSrc bs with
+             | .ok v => showTree v
+             | .error e => showDecErr e)
     | none => "bad-op"
   | "jx" :: toks =>
     match parseTree? toks with
-    | some v => showTree (jxEnc v)
+    | some v => three (showTree (jxEnc v))
+        (match Src.encodeSrc (asciiBytes "json-ext") v with
+         | .ok (.jsonDumps, w) => showTree w
+         | .ok _ => "err src-wrong-writer"
+         | .error e => showExc e)
     | none => "bad-op"
   | "jxd" :: toks =>
     match parseTree? toks with
     | some v =>
-      match jxDec v with
-      | .ok v' => showTree v'
-      | .error e => showHookErr e
+      three (match jxDec v with
+             | .ok v' => showTree v'
+             | .error e => showHookErr e)
+            (match Src.decW Src.jxHookSrc v with
+             | .ok v' => showTree v'
+             | .error e => showExc e)
+    | none => "bad-op"
+  | ["disp", hx] =>
+    match unhexStr? hx with
+    | some b =>
+      match utf8Dec b with
+      | some cs => three (dispHand (String.ofList cs)) (dispSrc b)
+      | none => "bad-op"
     | none => "bad-op"
   | ["auto", "str"] => showEnc (autoEnc .str)
   | ["auto", "bytes"] => showEnc (autoEnc .bytes)
